@@ -447,7 +447,7 @@ func ixTerm(off, k Term) Term {
 // literals, so other defaults get a declared array with a defining axiom.
 func (s *Sorts) constArray(elemSort string, v Term) Term {
 	lit := true
-	for _, bad := range []string{"str_empty", "zero_O_", "strlit_"} {
+	for _, bad := range []string{"str_empty", "zero_O_", "strlit_", "iface_nil", "slice_nil", "zarr_"} {
 		if strings.Contains(v, bad) {
 			lit = false
 		}
